@@ -63,13 +63,13 @@ def ent_block(kind: str, eid: int, cls: str, tk: str, name: str, hidden: bool = 
     return 'hidden\n{\n' + body + '}\n' if hidden else body
 
 
-def state_document(s: dict, tab: dict, variant: int = 0) -> tuple:
+def state_document(s: dict, tab: dict, variant: int = 0, rev: bool = False) -> tuple:
     """VMF text whose parse is map m1 of the model state s: the world block carries the worldspawn's
     classname / targetname spelling, every entity that is in m1 follows (some of them hidden)."""
     home, inmap, spawn, cls, name, tk = s['w1']
     text = 'versioninfo\n{\n\t"formatversion" "100"\n}\n' + ent_block('world', 1, conc(tab, cls), tk, conc(tab, name))
     parsed = []
-    for n, x in enumerate(sorted(k for k in s if k not in SPAWN.values())):
+    for n, x in enumerate(sorted((k for k in s if k not in SPAWN.values()), reverse=rev)):
         home, inmap, spawn, cls, name, tk = s[x]
         if home == 'm1' and inmap:
             parsed.append(x)
@@ -166,7 +166,7 @@ class World:
         return {'fold': [list(p) for p in pairs]}
 
     # ------------------------------------------------------------------ construction of a model state
-    def build(self, s: dict, tab: dict, how: str = 'api', variant: int = 0) -> str:
+    def build(self, s: dict, tab: dict, how: str = 'api', variant: int = 0, rev: bool = False) -> str:
         """s: id -> [home, inmap, spawn, cls, name, tk] (TLC's Pack).
         how = 'api':   VMF(), Entity(), add_ent()
         how = 'parse': map m1 comes from VMF.parse() of a document holding its worldspawn (class and
@@ -175,7 +175,7 @@ class World:
         text = ''
         parsed: list = []
         if how == 'parse':
-            text, parsed = state_document(s, tab, variant)
+            text, parsed = state_document(s, tab, variant, rev)
             vmf = VMF.parse(Keyvalues.parse(text))
             self.maps['m1'] = vmf
             self.ents['w1'] = vmf.spawn
@@ -184,7 +184,7 @@ class World:
             for x, e in zip(parsed, vmf.entities):
                 self.ents[x] = e
                 self.home[x] = 'm1'
-        for x in sorted(s):
+        for x in sorted(s, reverse=rev):       # rev: later slots are created (and filed) first
             home, inmap, spawn, cls, name, tk = s[x]
             if spawn:
                 if how == 'parse' and home == 'm1':
@@ -306,6 +306,70 @@ class World:
             mexc = ''
         return exc, mexc, [ids.get(id(e), '?') for e in got]
 
+    def scan_query(self, a: dict, tab: dict) -> dict:
+        """The lookup of a scan action: model kinds search_star / search_exact pick a pattern from the
+        names in the map; a random history gives the pattern itself (a['q'])."""
+        vmf = self.maps[a['m']]
+        names = sorted({e['targetname'] for e in list(vmf.entities) + [vmf.spawn]} - {''})
+        kind = a['kind']
+        if kind.startswith('items'):
+            return {'stem': '', 'star': False, 'hits': [], 'q': ''}
+        if 'q' in a:
+            q = a['q']
+        elif kind == 'search_star':
+            # a wildcard spanning as many distinct names as possible: their common prefix
+            folded = sorted({n.casefold() for n in names})
+            pre = folded[0] if folded else ''
+            for n in folded:
+                while not n.startswith(pre):
+                    pre = pre[:-1]
+            q = pre + '*'
+        else:
+            q = names[0] if names else 'zz'
+        star = q.endswith('*')
+        stem = q[:-1] if star else q
+        self.strings.add(stem)
+        folded_names = sorted({n.casefold() for n in names})
+        return {'stem': tok(stem), 'star': star, 'q': q,
+                'hits': [tok(n) for n in folded_names if n.startswith(stem.casefold())] if star else []}
+
+    def scan_iter(self, a: dict, q: dict):
+        """The lookup as a generator of (bucket key or '', entity)."""
+        vmf = self.maps[a['m']]
+        if a['kind'] in ('items_class', 'items_target'):
+            snap = list((vmf.by_class if a['kind'] == 'items_class' else vmf.by_target).items())
+            for key, bucket in snap:
+                if key is not None:
+                    self.strings.add(key)
+                for e in bucket:
+                    yield tok(key or ''), e
+        else:
+            for e in vmf.search(q['q']):
+                yield '', e
+
+    def do_scan(self, a: dict, tab: dict, nbefore: int, q: dict) -> tuple:
+        """Start the lookup, take nbefore results, make the call, take the rest."""
+        got: list = []
+        exc = mexc = ''
+        try:
+            it = self.scan_iter(a, q)
+            for _ in range(nbefore):
+                try:
+                    got.append(next(it))
+                except StopIteration:
+                    break
+            taken = len(got)
+            mexc, _ = self.do(a['mut'], tab)
+            got.extend(it)
+        except Exception as e:
+            exc = type(e).__name__
+            taken = min(nbefore, len(got))
+        ids = self.ident()
+        return exc, mexc, taken, [[k, ids.get(id(e), '?')] for k, e in got]
+
+    def scan_len(self, a: dict, q: dict) -> int:
+        return sum(1 for _ in self.scan_iter(a, q))
+
     def conc_action(self, a: dict, tab: dict) -> dict:
         """The action with concrete (tokenised) strings, as TLC must see it."""
         b = dict(a)
@@ -323,8 +387,8 @@ class World:
 
 def sig_for(w: World, pre: dict, a: dict, src: str) -> dict:
     """Abstract parameters that characterise a failure class (used to match known findings)."""
-    act = a['mut'] if a['op'] == 'iter' else a
-    sig = {'kind': src, 'action': act['op'], 'via': 'iter' if a['op'] == 'iter' else 'call'}
+    act = a['mut'] if a['op'] in ('iter', 'scan') else a
+    sig = {'kind': src, 'action': act['op'], 'via': a['op'] if a['op'] in ('iter', 'scan') else 'call'}
     x = act.get('x')
     if x and x in w.ents:
         e = pre['ent'][x]
@@ -348,14 +412,19 @@ def step(w: World, a: dict, tab: dict, src: str, out: hlib.RecWriter, hist=None,
     pre = w.project()
     sig = sig_for(w, pre, a, src)
     ca = w.conc_action(a, tab)
-    if a['op'] == 'iter':
+    if a['op'] == 'scan':
+        q = w.scan_query(a, tab)
+        ca = dict(ca, stem=q['stem'], star=q['star'], hits=q['hits'])
+        exc, mexc, taken, got = w.do_scan(a, tab, a.get('nbefore', 1), q)
+        rec = {'k': 'scan', 'pre': pre, 'a': ca, 'exc': exc, 'mexc': mexc, 'val': '', 'got': got, 'nbefore': taken, 'q': q['q']}
+    elif a['op'] == 'iter':
         exc, mexc, got = w.do_iter(a, tab)      # exc: raised by the iteration itself; mexc: by the call in the middle
         rec = {'k': 'iter', 'pre': pre, 'a': ca, 'exc': exc, 'mexc': mexc, 'val': '', 'got': got}
     else:
         exc, val = w.do(a, tab)
         rec = {'k': 'step', 'pre': pre, 'a': ca, 'exc': exc, 'val': val}
     rec['post'] = w.project(search=True)
-    act = a['mut'] if a['op'] == 'iter' else a
+    act = a['mut'] if a['op'] in ('iter', 'scan') else a
     x = act.get('x')
     if x and x in w.ents and 'inmap' in sig:
         real = w.ents[x]
@@ -413,6 +482,16 @@ def replay_edges(edge_file: str, out: hlib.RecWriter, part: int, nparts: int, st
                 if key not in seen:
                     seen.add(key)
                     parse_record(w, text, out, stats, {'state': e['s'], 'tab': CONCRETE.index(tab), 'variant': n})
+            if e['a']['op'] == 'scan':
+                # the call is made after the first result, and again just before the last one, so that the
+                # bucket of the entity it re-files is once still ahead and once already behind
+                total = w.scan_len(e['a'], w.scan_query(e['a'], tab))
+                for nb, rev in ((max(1, total - 1), False), (1, True)):
+                    w2 = World(slots_of(e['s']))
+                    w2.build(e['s'], tab, how, variant=n, rev=rev)    # rev: the entity's bucket comes late in the index
+                    step(w2, dict(e['a'], nbefore=nb), tab, 'edge', out, state=e['s'], built=[how, n, rev])
+                    stats['scans'] = stats.get('scans', 0) + 1
+                continue
             step(w, e['a'], tab, 'edge', out, state=e['s'], built=[how, n])
         stats['edges_replayed'] = stats.get('edges_replayed', 0) + 1
 
@@ -430,6 +509,8 @@ def replay_paths(edge_file: str, out: hlib.RecWriter, stats: dict) -> None:
         for a in path[:-1]:
             if a['op'] == 'iter':
                 w.do_iter(a, tab)
+            elif a['op'] == 'scan':
+                w.do(a['mut'], tab)
             else:
                 w.do(a, tab)
         step(w, path[-1], tab, 'path', out, hist=path)
@@ -503,7 +584,7 @@ def random_histories(out: hlib.RecWriter, rng: random.Random, n_hist: int, lengt
                 ops += ['add_ent'] * 3 + ['add_ents']
             if live:
                 ops += ['set_class'] * 3 + ['set_name'] * 4 + ['update', 'del_name', 'pop_name', 'make_unique', 'make_unique', 'setdefault_name',
-                                                                'remove_ent', 'ent_remove', 'del_class', 'iter', 'iter']
+                                                                'remove_ent', 'ent_remove', 'del_class', 'iter', 'iter', 'scan', 'scan', 'scan']
                 if not easy:
                     ops += ['clear', 'pop_class']
             ops += ['spawn'] * 3
@@ -547,6 +628,27 @@ def random_histories(out: hlib.RecWriter, rng: random.Random, n_hist: int, lengt
                                 {'op': 'del_name', 'x': sp, 'k': k}, {'op': 'pop_name', 'x': sp},
                                 {'op': 'make_unique', 'x': sp, 'prefix': rng.choice(['', 'world'])}]
                                + ([] if easy else [{'op': 'pop_class', 'x': sp}]))
+            elif op == 'scan':
+                # a lookup over several buckets in progress while an entity leaves / changes its bucket
+                m = w.home[x]
+                vmf = w.maps[m]
+                nm = sorted({e['targetname'] for e in vmf.entities} - {''})
+                kind = rng.choice(['search_star', 'search_star', 'search_exact', 'items_class', 'items_target'])
+                a = {'op': 'scan', 'kind': kind, 'm': m}
+                if kind == 'search_star':
+                    a['q'] = rng.choice([n[:rng.randint(0, 2)] for n in nm] or ['']) + '*'
+                elif kind == 'search_exact':
+                    e0 = w.ents[x]
+                    a['q'] = rng.choice([e0['targetname'].swapcase(), e0['classname'].swapcase()]) or 'zz'
+                y = rng.choice([z for z in live if w.home[z] == m])
+                a['mut'] = rng.choice([{'op': 'remove_ent', 'x': y}, {'op': 'ent_remove', 'x': y},
+                                       {'op': 'set_name', 'x': y, 'v': rng.choice(names), 'k': k},
+                                       {'op': 'set_class', 'x': y, 'v': rng.choice(classes)},
+                                       {'op': 'update', 'x': y, 'v': rng.choice(classes), 'n': rng.choice(names), 'k': k},
+                                       {'op': 'del_name', 'x': y, 'k': k}, {'op': 'pop_name', 'x': y},
+                                       {'op': 'make_unique', 'x': y, 'prefix': ''}]
+                                      + ([] if easy else [{'op': 'clear', 'x': y, 'c': ''}]))
+                a['nbefore'] = rng.randint(1, 3)
             elif op == 'iter':
                 tgt = rng.choice(inmap) if inmap else x
                 kind = rng.choice(['class', 'target'])
@@ -688,14 +790,17 @@ def main() -> None:
                         continue
                     if a['op'] == 'iter':
                         w.do_iter(a, tab)
+                    elif a['op'] == 'scan':
+                        w.do(a['mut'], tab)
                     else:
                         w.do(a, tab)
                 step(w, hist[-1], tab, src, out, hist=hist)
             else:
-                how, n = rec.get('built') or ['api', 0]
+                built = rec.get('built') or ['api', 0]
+                how, n, rev = built[0], built[1], (built[2] if len(built) > 2 else False)
                 w = World(slots_of(rec['state']))
-                w.build(rec['state'], tab, how, variant=n)
-                step(w, rec['raw'], tab, src, out, state=rec['state'], built=[how, n])
+                w.build(rec['state'], tab, how, variant=n, rev=rev)
+                step(w, rec['raw'], tab, src, out, state=rec['state'], built=[how, n, rev])
     else:
         raise SystemExit(2)
     out.close()
